@@ -480,6 +480,9 @@ pub fn space(tier: Tier, id: &str) -> Option<Box<dyn Space>> {
     if let Some(r) = reversed_of(id, |base| space(tier, base)) {
         return r;
     }
+    if let Some(r) = concurrent_of(id, |base| space(tier, base)) {
+        return r;
+    }
     match id {
         "grid" => Some(Box::new(grid(tier))),
         "families" => Some(Box::new(Families { vals: families() })),
@@ -517,7 +520,7 @@ fn run(ctx: &Ctx) -> i32 {
         println!("reference dump written to {}", path);
         return 0;
     }
-    let ids: Vec<&'static str> = if ctx.tier == Tier::Thorough { vec!["text", "builtin", "families", "grid", "text~rev", "builtin~rev", "families~rev", "grid~rev"] } else { vec!["text", "builtin", "families", "grid", "text~rev", "builtin~rev", "families~rev"] };
+    let ids: Vec<&'static str> = if ctx.tier == Tier::Thorough { vec!["text", "builtin", "families", "grid", "text~rev", "builtin~rev", "families~rev", "grid~rev", "text~par", "builtin~par", "families~par"] } else { vec!["text", "builtin", "families", "grid", "text~rev", "builtin~rev", "families~rev", "text~par", "builtin~par", "families~par"] };
     let spaces = ids.iter().map(|id| (*id, space(ctx.tier, id).unwrap())).collect();
     let thorough = ctx.tier == Tier::Thorough;
     let g = grid(ctx.tier);
